@@ -12,6 +12,7 @@
 -/
 import Dirk.Spec.Perms
 import Dirk.Model.Instance
+import Dirk.Lemmas.RegexAnchor
 
 namespace Dirk
 open Spec
@@ -51,6 +52,59 @@ theorem C07_scan_eq_spec (w a op : String) (paths : List CPath) :
     · rename_i hm
       simp only [hm]
       simpa [cmatches] using ih
+
+/-- the body `regexify` wraps: the pattern itself, `.*` for the empty pattern -/
+def rxBody (pat : String) : String := if pat.isEmpty then ".*" else pat
+
+/-- what the parser makes of `regexify`'s output: the parse of `(?i)body` put between the two
+    assertions.  This is a fact about the string-level parser; it is not proved but evaluated by the
+    driver (`jshape`) for every pattern the correspondence check uses. -/
+def ShapeOK (pat : String) : Prop :=
+  ReParse.parse (regexify pat) = (ReParse.parse ("(?i)" ++ rxBody pat)).map Re.anch
+
+/-- **C07 (whole-name matching).** A compiled path of the shape the parser produces for `regexify`'s
+    output matches exactly when the two bodies match the WHOLE wallet name and the WHOLE account name:
+    Go's unanchored `MatchString` on `^(?:…)$` cannot match a proper part of a name. -/
+theorem C07_whole_name (rw ra : Re) (ops : List String) (w a : String) :
+    cmatches w a { wallet := Re.anch rw, account := Re.anch ra, ops := ops }
+      = (Re.fullMatch rw w && Re.fullMatch ra a) :=
+  Re.cmatch_anchored rw ra w a
+
+/-- **C07 (compiled entry = specification).** An entry compiled through `regexify` matches a
+    wallet/account pair in `Check` exactly when the specification says its patterns match the whole
+    names (`Spec.entryMatches`), for every entry whose two patterns parse to the anchored shape. -/
+theorem C07_entry_matches_spec (e : PermEntry) (c : CPath) (w a : String)
+    (hc : compileEntry regexify e = some c)
+    (hs : ∀ pw pa, walletAndAccount e.path = some (pw, pa) → ShapeOK pw ∧ ShapeOK pa) :
+    cmatches w a c = entryMatches e w a := by
+  unfold compileEntry at hc
+  unfold entryMatches
+  split at hc
+  · cases hc
+  · rename_i pw pa hwa
+    obtain ⟨hsw, hsa⟩ := hs pw pa hwa
+    simp only [hwa]
+    split at hc
+    · cases hc
+    · unfold ShapeOK at hsw hsa
+      split at hc
+      · rename_i rw' ra' hpw hpa
+        cases hc
+        rw [hpw] at hsw
+        rw [hpa] at hsa
+        unfold patMatches
+        unfold rxBody at hsw hsa
+        cases hbw : ReParse.parse ("(?i)" ++ (if pw.isEmpty then ".*" else pw)) with
+        | none => rw [hbw] at hsw; cases hsw
+        | some bw =>
+          cases hba : ReParse.parse ("(?i)" ++ (if pa.isEmpty then ".*" else pa)) with
+          | none => rw [hba] at hsa; cases hsa
+          | some ba =>
+            rw [hbw] at hsw; rw [hba] at hsa
+            simp only [Option.map_some, Option.some.injEq] at hsw hsa
+            subst hsw; subst hsa
+            exact Re.cmatch_anchored bw ba w a
+      · cases hc
 
 /-- **C07 (default deny).** No matching entry bears on the operation ⇒ refused. -/
 theorem C07_default_deny (acc : Access) (client account op : String)
